@@ -324,3 +324,33 @@ func constOfObj(pkg *types.Package, name string) (constant.Value, bool) {
 	}
 	return c.Val(), true
 }
+
+// unspill looks through go/ssa's "defer-spilled" results: in a function with
+// defers a return reads its results back from allocs written just before
+// rundefers (*t0 = v; rundefers; t1 = *t0; return t1). It returns v.
+func unspill(v ssa.Value) ssa.Value {
+	u, ok := v.(*ssa.UnOp)
+	if !ok || u.Op != token.MUL {
+		return v
+	}
+	a, ok := u.X.(*ssa.Alloc)
+	if !ok {
+		return v
+	}
+	instrs := u.Block().Instrs
+	for i := instrIndex(u) - 1; i >= 0; i-- {
+		if st, ok := instrs[i].(*ssa.Store); ok && st.Addr == ssa.Value(a) {
+			return st.Val
+		}
+	}
+	return v
+}
+
+// returnResults lists the (unspilled) result values of a return.
+func returnResults(r *ssa.Return) []ssa.Value {
+	out := make([]ssa.Value, len(r.Results))
+	for i, v := range r.Results {
+		out[i] = unspill(v)
+	}
+	return out
+}
